@@ -101,6 +101,12 @@ func classifyExit(cond ssa.Value, h *ssa.BasicBlock, body map[int]bool) string {
 }
 
 func isInductionPhi(v ssa.Value, h *ssa.BasicBlock) bool {
+	// phi ± const (the lowering of range-over-slice compares phi+1 with len)
+	if b, ok := v.(*ssa.BinOp); ok && (b.Op == token.ADD || b.Op == token.SUB) {
+		if _, isC := b.Y.(*ssa.Const); isC {
+			v = b.X
+		}
+	}
 	ph, ok := v.(*ssa.Phi)
 	if !ok || ph.Block() != h {
 		return false
